@@ -75,6 +75,16 @@ type c20World struct {
 	ctx  sdk.Context
 	u    []sdk.AccAddress
 	fail []string
+	skip []string // construction steps left out in this case (name prefixes)
+}
+
+func (w *c20World) skipped(name string) bool {
+	for _, p := range w.skip {
+		if strings.HasPrefix(name, p) {
+			return true
+		}
+	}
+	return false
 }
 
 func c20Addr(i int) sdk.AccAddress {
@@ -113,6 +123,10 @@ func c20Deliver(app *chain.App, ctx sdk.Context, msg sdk.Msg) (ok bool, detail s
 
 // step runs one construction step; construction failures are recorded (the fixture must build completely).
 func (w *c20World) step(name string, f func() error) {
+	if w.skipped(name) {
+		w.tr.Count("build:skipped")
+		return
+	}
 	var err error
 	pan, pmsg := try(func() { err = f() })
 	switch {
@@ -240,11 +254,12 @@ func (w *c20World) buildCore() {
 	}
 	u1, u2, u3, u4 := w.u[0].String(), w.u[1].String(), w.u[2].String(), w.u[3].String()
 	coin := func(d string, n int64) sdk.Coin { return sdk.NewCoin(d, sdk.NewInt(n)) }
-	// lending: positions 1-3 stay, position 4 is closed again (the lend id counter then exceeds every live id)
+	// lending: positions 1-4 stay, position 5 and its borrow are closed again (the id counters then exceed every live id)
 	w.msg("lend 1", lendtypes.NewMsgLend(u1, a1, coin("uasset1", 3000000000), 1, 3))
 	w.msg("lend 2", lendtypes.NewMsgLend(u1, a2, coin("uasset2", 10000000000), 1, 3))
 	w.msg("lend 3", lendtypes.NewMsgLend(u2, a1, coin("uasset1", 10000000000), 1, 3))
-	w.msg("lend 4", lendtypes.NewMsgLend(u3, a1, coin("uasset1", 5000000000), 1, 3))
+	w.msg("lend 4", lendtypes.NewMsgLend(u4, a1, coin("uasset1", 4000000000), 1, 3))
+	w.msg("lend 5", lendtypes.NewMsgLend(u3, a1, coin("uasset1", 5000000000), 1, 3))
 	w.msg("fund mod 1/1", lendtypes.NewMsgFundModuleAccounts(1, a1, u1, coin("uasset1", 10000000000)))
 	w.msg("fund mod 1/2", lendtypes.NewMsgFundModuleAccounts(1, a2, u1, coin("uasset2", 10000000000)))
 	w.msg("fund mod 1/3", lendtypes.NewMsgFundModuleAccounts(1, a3, u1, coin("uasset3", 120000000)))
@@ -253,9 +268,10 @@ func (w *c20World) buildCore() {
 	w.msg("fund reserve", lendtypes.NewMsgFundReserveAccounts(a1, u1, coin("uasset1", 1000000)))
 	w.msg("borrow 1", lendtypes.NewMsgBorrow(u1, 1, 1, false, coin("ucasset1", 100000000), coin("uasset2", 70000000)))
 	w.msg("borrow 2", lendtypes.NewMsgBorrow(u2, 3, 1, false, coin("ucasset1", 1000000000), coin("uasset2", 700000000)))
-	w.msg("borrow 3", lendtypes.NewMsgBorrow(u3, 4, 1, false, coin("ucasset1", 1000000000), coin("uasset2", 100000000)))
-	w.msg("close borrow 3", lendtypes.NewMsgCloseBorrow(u3, 3))
-	w.msg("close lend 4", lendtypes.NewMsgCloseLend(u3, 4))
+	w.msg("borrow 3", lendtypes.NewMsgBorrow(u4, 4, 1, false, coin("ucasset1", 500000000), coin("uasset2", 350000000)))
+	w.msg("borrow 4", lendtypes.NewMsgBorrow(u3, 5, 1, false, coin("ucasset1", 1000000000), coin("uasset2", 100000000)))
+	w.msg("close borrow 4", lendtypes.NewMsgCloseBorrow(u3, 4))
+	w.msg("close lend 5", lendtypes.NewMsgCloseLend(u3, 5))
 
 	// vaults of app 2 (harbor): ids 1,2 will be liquidated, 3 is safe, 4 is closed by its owner
 	w.step("pair 1", func() error {
@@ -318,6 +334,7 @@ func (w *c20World) buildCore() {
 	w.msg("V1 liquidate vault 5", liquidationtypes.NewMsgLiquidateRequest(w.u[3], 4, 5))
 	w.msg("V1 liquidate vault 6", liquidationtypes.NewMsgLiquidateRequest(w.u[3], 4, 6))
 	w.msg("V1 liquidate borrow 2", liquidationtypes.NewMsgLiquidateBorrowRequest(w.u[3], 2))
+	w.msg("V1 liquidate borrow 3", liquidationtypes.NewMsgLiquidateBorrowRequest(w.u[2], 3))
 }
 
 // ---- phase 2: locker, collector, rewards ------------------------------------------------------------------------------
@@ -325,9 +342,26 @@ func (w *c20World) buildCore() {
 func (w *c20World) buildLocker() {
 	u1, u2 := w.u[0].String(), w.u[1].String()
 	coin := func(d string, n int64) sdk.Coin { return sdk.NewCoin(d, sdk.NewInt(n)) }
+	// as on the live chain the secondary asset of app 2 is one of its genesis tokens; app 4 uses a secondary asset that is not
+	// (the run-time path WasmSetCollectorLookupTable accepts that, the genesis path SetCollectorLookupTable does not)
+	var hbr uint64
+	w.step("asset HARBOR", func() error {
+		if err := w.app.AssetKeeper.AddAssetRecords(w.ctx, assettypes.Asset{Name: "HARBOR", Denom: "uharbor", Decimals: sdk.NewInt(1000000), IsOnChain: true}); err != nil {
+			return err
+		}
+		a, _ := w.app.AssetKeeper.GetAssetForDenom(w.ctx, "uharbor")
+		hbr = a.Id
+		return w.app.AssetKeeper.AddAssetInAppRecords(w.ctx, assettypes.AppData{Id: 2, GenesisToken: []assettypes.MintGenesisToken{
+			{AssetId: hbr, GenesisSupply: sdk.NewInt(1000000000), IsGovToken: false, Recipient: u1}}})
+	})
+	w.step("collector lookup 4/3", func() error {
+		return w.app.CollectorKeeper.WasmSetCollectorLookupTable(w.ctx, &bindings.MsgSetCollectorLookupTable{AppID: 4, CollectorAssetID: 3,
+			SecondaryAssetID: 1, SurplusThreshold: sdk.NewInt(10000000), DebtThreshold: sdk.NewInt(5000000), LockerSavingRate: c20Dec("0.0"),
+			LotSize: sdk.NewInt(2000000), BidFactor: c20Dec("0.01"), DebtLotSize: sdk.NewInt(2000000)})
+	})
 	w.step("collector lookup 2/3", func() error {
 		return w.app.CollectorKeeper.WasmSetCollectorLookupTable(w.ctx, &bindings.MsgSetCollectorLookupTable{AppID: 2, CollectorAssetID: 3,
-			SecondaryAssetID: 1, SurplusThreshold: sdk.NewInt(10000000), DebtThreshold: sdk.NewInt(5000000), LockerSavingRate: c20Dec("0.1"),
+			SecondaryAssetID: hbr, SurplusThreshold: sdk.NewInt(10000000), DebtThreshold: sdk.NewInt(5000000), LockerSavingRate: c20Dec("0.1"),
 			LotSize: sdk.NewInt(2000000), BidFactor: c20Dec("0.01"), DebtLotSize: sdk.NewInt(2000000)})
 	})
 	w.step("collector auction mapping", func() error {
@@ -343,7 +377,7 @@ func (w *c20World) buildLocker() {
 	w.msg("locker 2", lockertypes.NewMsgCreateLockerRequest(u2, sdk.NewInt(3000000), 3, 2))
 	w.msg("locker 3", lockertypes.NewMsgCreateLockerRequest(w.u[2].String(), sdk.NewInt(2000000), 3, 2))
 	w.msg("locker 1 deposit", lockertypes.NewMsgDepositAssetRequest(u1, 1, sdk.NewInt(1000000), 3, 2))
-	w.msg("locker 3 close", lockertypes.NewMsgCloseLockerRequest(w.u[2].String(), 2, 3, 3))
+	w.msg("close locker 3", lockertypes.NewMsgCloseLockerRequest(w.u[2].String(), 2, 3, 3))
 	w.msg("ext rewards locker", rewardstypes.NewMsgActivateExternalRewardsLockers(2, 3, coin("ucmdx", 3000000), 10, 1, w.u[0]))
 }
 
@@ -373,6 +407,9 @@ func (w *c20World) buildLiquidityPending() {
 	w.msg("liq mm order", liquiditytypes.NewMsgMMOrder(1, w.u[1], 1, c20Dec("1.10"), c20Dec("1.06"), sdk.NewInt(3000000), c20Dec("0.94"), c20Dec("0.90"),
 		sdk.NewInt(3000000), 10*time.Hour))
 	w.msg("liq farm u2", liquiditytypes.NewMsgFarm(1, 1, w.u[0], sdk.NewCoin("pool1-1", sdk.NewInt(500000))))
+	// the most recently created vault is closed again: the vault id counter is ahead of every live vault
+	w.msg("vault last", vaulttypes.NewMsgCreateRequest(w.u[2], 2, 1, sdk.NewInt(300000000), sdk.NewInt(1000000)))
+	w.msg("close vault last", &vaulttypes.MsgCloseRequest{From: w.u[2].String(), AppId: 2, ExtendedPairVaultId: 1, UserVaultId: w.app.VaultKeeper.GetIDForVault(w.ctx)})
 }
 
 // ---- phase 4: token mint, emergency shutdown, kill switch ---------------------------------------------------------------
@@ -388,11 +425,12 @@ func (w *c20World) buildEsm() {
 	w.step("app killapp", func() error {
 		return w.app.AssetKeeper.AddAppRecords(w.ctx, assettypes.AppData{Name: "killer", ShortName: "kll", MinGovDeposit: sdk.NewInt(0), GovTimeInSeconds: 0})
 	})
+	gov, _ := w.app.AssetKeeper.GetAssetForDenom(w.ctx, "ugov")
 	w.step("gov token for app 5", func() error {
 		return w.app.AssetKeeper.AddAssetInAppRecords(w.ctx, assettypes.AppData{Id: 5, GenesisToken: []assettypes.MintGenesisToken{
-			{AssetId: 10, GenesisSupply: sdk.NewInt(1000000000), IsGovToken: true, Recipient: u1}}})
+			{AssetId: gov.Id, GenesisSupply: sdk.NewInt(1000000000), IsGovToken: true, Recipient: u1}}})
 	})
-	w.msg("tokenmint", tokenminttypes.NewMsgMintNewTokensRequest(u1, 5, 10))
+	w.msg("tokenmint", tokenminttypes.NewMsgMintNewTokensRequest(u1, 5, gov.Id))
 	w.extPair(5, 1, "CMDX-E", false, "0.01")
 	w.msg("vault 7 (esm app)", vaulttypes.NewMsgCreateRequest(w.u[0], 5, 4, sdk.NewInt(100000000), sdk.NewInt(1000000)))
 	w.step("esm trigger params", func() error {
@@ -437,7 +475,12 @@ func (w *c20World) v1Bids() {
 	coin := func(d string, n int64) sdk.Coin { return sdk.NewCoin(d, sdk.NewInt(n)) }
 	w.msg("V1 dutch bid partial", auctiontypes.NewMsgPlaceDutchBid(w.u[2].String(), 1, coin("uasset2", 100000), 4, 3))
 	w.msg("V1 dutch bid full", auctiontypes.NewMsgPlaceDutchBid(w.u[3].String(), 2, coin("uasset2", 1000000), 4, 3))
-	w.msg("V1 dutch lend bid", auctiontypes.NewMsgPlaceDutchLendBid(w.u[2].String(), 1, coin("uasset1", 10000000), 3, 3))
+	w.msg("V1 dutch lend bid partial", auctiontypes.NewMsgPlaceDutchLendBid(w.u[2].String(), 2, coin("uasset1", 10000000), 3, 3))
+	if la, err := w.app.AuctionKeeper.GetDutchLendAuction(w.ctx, 3, 3, 1); err == nil {
+		w.msg("V1 dutch lend bid full", auctiontypes.NewMsgPlaceDutchLendBid(w.u[3].String(), 1, la.OutflowTokenCurrentAmount, 3, 3))
+	} else {
+		w.fail = append(w.fail, "lend auction 1 not found")
+	}
 	w.msg("V2 market bid 2", auctionsV2types.NewMsgPlaceMarketBid(w.u[2].String(), 2, coin("uasset3", 1120000)))
 	// an externally initiated liquidation and a full bid on it (fee statistics of external initiators)
 	w.msg("V2 external liquidation", liqV2types.NewMsgLiquidateExternalKeeperRequest(w.u[3], 2, w.u[3].String(), coin("uasset2", 1000000),
@@ -484,11 +527,17 @@ func c20Summary(t *testing.T, name string, kvs []c20KV) {
 
 // ---- round trip -------------------------------------------------------------------------------------------------------
 
-func c20DumpAll(tr *Trace, side string, app *chain.App, ctx sdk.Context) {
+func c20DumpAll(tr *Trace, side string, app *chain.App, ctx sdk.Context, bytes map[string]map[string]bool) int {
+	n := 0
 	for _, s := range c20Stores {
 		for _, kv := range c20Dump(app, ctx, s[1]) {
 			tr.Line("gen.kv", side, s[0], hex.EncodeToString(kv.k), hex.EncodeToString(kv.v))
 			tr.Count("kv:" + side + ":" + s[0])
+			if bytes[s[0]] == nil {
+				bytes[s[0]] = map[string]bool{}
+			}
+			bytes[s[0]][hex.EncodeToString(kv.k[:1])] = true
+			n++
 		}
 	}
 	// module parameters live in the params store, one subspace per module
@@ -504,6 +553,7 @@ func c20DumpAll(tr *Trace, side string, app *chain.App, ctx sdk.Context) {
 			}
 		}
 	}
+	return n
 }
 
 type c20Op struct {
@@ -515,8 +565,11 @@ func c20Continuation(us []sdk.AccAddress) []c20Op {
 	coin := func(d string, n int64) sdk.Coin { return sdk.NewCoin(d, sdk.NewInt(n)) }
 	m := func(msg func() sdk.Msg, obs func(app *chain.App, ctx sdk.Context) string) func(app *chain.App, ctx sdk.Context) string {
 		return func(app *chain.App, ctx sdk.Context) string {
-			ok, _ := c20Deliver(app, ctx, msg())
+			ok, d := c20Deliver(app, ctx, msg())
 			if !ok {
+				if os.Getenv("C20_VERBOSE") != "" {
+					fmt.Println("   continuation op failed:", d)
+				}
 				return "err"
 			}
 			if obs == nil {
@@ -547,9 +600,16 @@ func c20Continuation(us []sdk.AccAddress) []c20Op {
 			})},
 		{"new_lend_id", m(func() sdk.Msg { return lendtypes.NewMsgLend(u6.String(), 1, coin("uasset1", 7000000), 1, 3) },
 			func(a *chain.App, c sdk.Context) string { return u(a.LendKeeper.GetUserLendIDCounter(c)) })},
-		{"new_borrow_id", m(func() sdk.Msg {
-			return lendtypes.NewMsgBorrow(us[0].String(), 2, 3, false, coin("ucasset2", 100000000), coin("uasset1", 1000000))
-		}, func(a *chain.App, c sdk.Context) string { return u(a.LendKeeper.GetUserBorrowIDCounter(c)) })},
+		{"new_borrow_id", func(a *chain.App, c sdk.Context) string {
+			ok, d := c20Deliver(a, c, lendtypes.NewMsgBorrow(u6.String(), a.LendKeeper.GetUserLendIDCounter(c), 1, false, coin("ucasset1", 5000000), coin("uasset2", 1000000)))
+			if !ok {
+				if os.Getenv("C20_VERBOSE") != "" {
+					fmt.Println("   continuation op failed:", d)
+				}
+				return "err"
+			}
+			return "ok:" + u(a.LendKeeper.GetUserBorrowIDCounter(c))
+		}},
 		{"new_order_id", m(func() sdk.Msg {
 			return liquiditytypes.NewMsgLimitOrder(1, u6, 1, liquiditytypes.OrderDirectionSell, coin("uasset1", 2006000), "uasset2", c20Dec("1.07"), sdk.NewInt(2000000), time.Hour)
 		}, func(a *chain.App, c sdk.Context) string {
@@ -579,7 +639,7 @@ func c20Continuation(us []sdk.AccAddress) []c20Op {
 			}
 			return "ok:" + u(a.NewliqKeeper.GetLockedVaultID(c)) + "/" + u(a.NewaucKeeper.GetAuctionID(c)) + "/" + u(uint64(len(a.NewliqKeeper.GetLockedVaults(c))))
 		}},
-		{"v1_dutch_bid_id", m(func() sdk.Msg { return auctiontypes.NewMsgPlaceDutchBid(u6.String(), 1, coin("uasset2", 100000), 4, 3) },
+		{"v1_dutch_bid_id", m(func() sdk.Msg { return auctiontypes.NewMsgPlaceDutchBid(u6.String(), 1, coin("uasset2", 900000), 4, 3) },
 			func(a *chain.App, c sdk.Context) string { return u(a.AuctionKeeper.GetUserBiddingID(c)) })},
 		{"v1_lend_bid", m(func() sdk.Msg {
 			return auctiontypes.NewMsgPlaceDutchLendBid(u6.String(), 1, coin("uasset1", 1000000), 3, 3)
@@ -607,19 +667,15 @@ func c20Continuation(us []sdk.AccAddress) []c20Op {
 			if err := a.AssetKeeper.AddAssetRecords(cc, assettypes.Asset{Name: "GOVTWO", Denom: "ugov2", Decimals: sdk.NewInt(1000000), IsOnChain: true}); err != nil {
 				return "err"
 			}
+			g2, _ := a.AssetKeeper.GetAssetForDenom(cc, "ugov2")
 			if err := a.AssetKeeper.AddAssetInAppRecords(cc, assettypes.AppData{Id: 5, GenesisToken: []assettypes.MintGenesisToken{
-				{AssetId: 11, GenesisSupply: sdk.NewInt(1000), IsGovToken: true, Recipient: u6.String()}}}); err != nil {
+				{AssetId: g2.Id, GenesisSupply: sdk.NewInt(1000), IsGovToken: true, Recipient: u6.String()}}}); err != nil {
 				return "err"
 			}
 			write()
 			return "ok"
 		}},
 		{"esm_redeem", m(func() sdk.Msg { return esmtypes.NewMsgCollateralRedemption(5, coin("uasset3", 100000), us[0]) }, nil)},
-		{"oracle_feed_config", func(a *chain.App, c sdk.Context) string {
-			msg := a.BandoracleKeeper.GetFetchPriceMsg(c)
-			return fmt.Sprintf("script=%d/batch=%d/last=%d/valid=%t", msg.OracleScriptID, msg.TwaBatchSize, a.BandoracleKeeper.GetLastBlockHeight(c),
-				a.BandoracleKeeper.GetOracleValidationResult(c))
-		}},
 	}
 }
 
@@ -632,17 +688,60 @@ func c20Balances(app *chain.App, ctx sdk.Context) map[string]string {
 	return out
 }
 
+// one case = one application state, exported, re-imported, compared, continued
+type c20Case struct {
+	name        string
+	skip        []string
+	extraBlocks int
+}
+
+func c20Cases() []c20Case {
+	groups := map[string][]string{
+		"no-close":       {"close "},
+		"no-bids":        {"market bid", "limit bid", "V2 market bid", "V2 bid", "V1 dutch"},
+		"good-secondary": {"collector lookup 4/3"},
+		"no-esm-exec":    {"esm execute"},
+		"no-v1":          {"V1 "},
+		"no-rewards":     {"ext rewards"},
+		"no-pending":     {"liq deposit", "liq withdraw", "liq order", "liq mm"},
+	}
+	names := []string{"no-close", "no-bids", "good-secondary", "no-esm-exec", "no-v1", "no-rewards", "no-pending"}
+	cases := []c20Case{{name: "rich-state"}} // the witness state first
+	for _, n := range names[:5] {
+		cases = append(cases, c20Case{name: n, skip: groups[n]})
+	}
+	rng := NewRng(seed())
+	for i := 0; i < scale(2, 40); i++ {
+		c := c20Case{name: "mix", extraBlocks: rng.Intn(4)}
+		for _, n := range names {
+			if rng.Chance(35) {
+				c.name += "+" + n
+				c.skip = append(c.skip, groups[n]...)
+			}
+		}
+		cases = append(cases, c)
+	}
+	return cases
+}
+
 func TestC20(t *testing.T) {
 	tr := OpenTrace(t, "c20.trace")
 	defer tr.Close(t)
+	for _, c := range c20Cases() {
+		c20RunCase(t, tr, c)
+		tr.Count("case:" + strings.SplitN(c.name, "+", 2)[0])
+	}
+}
+
+func c20RunCase(t *testing.T, tr *Trace, cs c20Case) {
 	a := chain.Setup(t, false)
 	h := a.LastBlockHeight() + 1
 	now := time.Unix(2000000000, 0).UTC()
-	w := &c20World{t: t, tr: tr, app: a, ctx: a.BaseApp.NewContext(false, tmproto.Header{Height: h, Time: now})}
+	w := &c20World{t: t, tr: tr, app: a, ctx: a.BaseApp.NewContext(false, tmproto.Header{Height: h, Time: now}), skip: cs.skip}
 	for i := 1; i <= 6; i++ {
 		w.u = append(w.u, c20Addr(i))
 	}
-	tr.Line("gen.begin", "rich-state", u(seed()))
+	tr.Line("gen.begin", cs.name, u(seed()))
 	w.buildOracle()
 	w.buildCore()
 	w.buildLocker()
@@ -651,10 +750,14 @@ func TestC20(t *testing.T) {
 	w.nextBlock(6 * time.Second) // block 3: ESM price snapshot; bids on both auction generations
 	w.v1Bids()
 	w.nextBlock(6 * time.Second) // block 4: ESM cool-off over
-	w.nextBlock(6 * time.Second) // block 5
+	for i := 0; i <= cs.extraBlocks; i++ {
+		w.nextBlock(6 * time.Second)
+	}
 	w.buildLiquidityPending()
 	for _, f := range w.fail {
-		t.Logf("BUILD FAIL %s", f)
+		if os.Getenv("C20_VERBOSE") != "" {
+			t.Logf("BUILD FAIL %s: %s", cs.name, f)
+		}
 		tr.Line("gen.note", "build step failed: "+strings.ReplaceAll(f, "\t", " "))
 	}
 	h = w.ctx.BlockHeight()
@@ -668,15 +771,22 @@ func TestC20(t *testing.T) {
 		t.Fatal(err)
 	}
 	tr.Set("exported_bytes", len(exp.AppState))
-	b := chain.New(log.NewNopLogger(), dbm.NewMemDB(), nil, true, map[int64]bool{}, chain.DefaultNodeHome, 5, chain.MakeEncodingConfig(),
-		simtestutil.EmptyAppOptions{}, chain.GetWasmEnabledProposals(), chain.EmptyWasmOpts)
-	pan, msg := try(func() {
-		b.InitChain(abci.RequestInitChain{Validators: []abci.ValidatorUpdate{}, ConsensusParams: chain.DefaultConsensusParams,
-			AppStateBytes: exp.AppState, Time: now, InitialHeight: exp.Height})
-	})
-	if pan {
-		tr.Line("gen.import", "panic")
-		t.Logf("InitChain from exported genesis panicked: %s", msg)
+	fresh := func() *chain.App {
+		b := chain.New(log.NewNopLogger(), dbm.NewMemDB(), nil, true, map[int64]bool{}, chain.DefaultNodeHome, 5, chain.MakeEncodingConfig(),
+			simtestutil.EmptyAppOptions{}, chain.GetWasmEnabledProposals(), chain.EmptyWasmOpts)
+		pan, msg := try(func() {
+			b.InitChain(abci.RequestInitChain{Validators: []abci.ValidatorUpdate{}, ConsensusParams: chain.DefaultConsensusParams,
+				AppStateBytes: exp.AppState, Time: now, InitialHeight: exp.Height})
+		})
+		if pan {
+			tr.Line("gen.import", "panic")
+			t.Logf("InitChain from exported genesis panicked: %s", msg)
+			return nil
+		}
+		return b
+	}
+	b := fresh()
+	if b == nil {
 		return
 	}
 	tr.Line("gen.import", "ok")
@@ -684,26 +794,79 @@ func TestC20(t *testing.T) {
 	// (i) store by store, before anything else runs (as in the ABCI flow InitChain is followed directly by BeginBlock)
 	ca := a.BaseApp.NewUncachedContext(false, hdr)
 	cb := b.BaseApp.NewContext(false, hdr)
-	c20DumpAll(tr, "A", a, ca)
-	c20DumpAll(tr, "B", b, cb)
+	firstBytes := map[string]map[string]bool{}
+	nA := c20DumpAll(tr, "A", a, ca, firstBytes)
+	nB := c20DumpAll(tr, "B", b, cb, firstBytes)
+	for _, s := range c20Stores {
+		var bs []string
+		for x := range firstBytes[s[0]] {
+			bs = append(bs, x)
+		}
+		sort.Strings(bs)
+		for _, x := range bs {
+			tr.Line("gen.check", s[0], x)
+		}
+		tr.Line("gen.params", s[0])
+	}
 	if os.Getenv("C20_VERBOSE") != "" {
 		for _, s := range c20Stores {
 			c20Summary(t, s[0]+" A", c20Dump(a, ca, s[1]))
 			c20Summary(t, s[0]+" B", c20Dump(b, cb, s[1]))
 		}
 	}
-	tr.Line("gen.end")
+	tr.Line("gen.end", u(uint64(nA)), u(uint64(nB)))
 
-	// (ii) the same continuation on both chains: one block with user messages, then one more block a day later
-	ops := c20Continuation(w.u)
-	var ctxs [2]sdk.Context
-	for i, app := range []*chain.App{a, b} {
+	// (ii) continuation. First the faithful probe: the first block on the original and on the re-imported chain, and what a
+	// price-dependent user message does afterwards (on branches that are thrown away).
+	begin := func(app *chain.App, side string) sdk.Context {
 		p, m := try(func() { app.BeginBlock(abci.RequestBeginBlock{Header: hdr}) })
 		if p {
-			tr.Line("gen.op", "begin_block", []string{"A", "B"}[i]+" panic "+strings.ReplaceAll(m, "\t", " "), "-")
+			tr.Line("gen.op", "begin_block_"+side, "panic "+strings.ReplaceAll(m, "\t", " "), "-")
 		}
-		ctxs[i] = app.BaseApp.NewContext(false, hdr)
+		return app.BaseApp.NewContext(false, hdr)
 	}
+	var ctxs [2]sdk.Context
+	ctxs[0], ctxs[1] = begin(a, "A"), begin(b, "B")
+	probe := []c20Op{
+		{"faithful.active_prices", func(app *chain.App, c sdk.Context) string {
+			n := 0
+			for _, tw := range app.MarketKeeper.GetAllTwa(c) {
+				if tw.IsPriceActive {
+					n++
+				}
+			}
+			return u(uint64(n))
+		}},
+		{"faithful.oracle_feed_config", func(app *chain.App, c sdk.Context) string {
+			msg := app.BandoracleKeeper.GetFetchPriceMsg(c)
+			return fmt.Sprintf("script=%d/batch=%d/last=%d/valid=%t", msg.OracleScriptID, msg.TwaBatchSize, app.BandoracleKeeper.GetLastBlockHeight(c),
+				app.BandoracleKeeper.GetOracleValidationResult(c))
+		}},
+		{"faithful.new_vault", func(app *chain.App, c sdk.Context) string {
+			ok, _ := c20Deliver(app, c, vaulttypes.NewMsgCreateRequest(w.u[5], 2, 1, sdk.NewInt(100000000), sdk.NewInt(1000000)))
+			if !ok {
+				return "err"
+			}
+			return "ok"
+		}},
+	}
+	for _, op := range probe {
+		c0, _ := ctxs[0].CacheContext()
+		c1, _ := ctxs[1].CacheContext()
+		tr.Line("gen.op", op.name, op.run(a, c0), op.run(b, c1))
+	}
+	// Then the workload proper on a second re-imported chain on which the oracle module's validation result — lost by the round
+	// trip (finding bandoracle/OracleValidationResultKey), without it x/market deactivates every price in the first block — is set
+	// again before the first block, so that the remaining differences are attributable to the other modules.
+	b2 := fresh()
+	if b2 == nil {
+		return
+	}
+	b2.BandoracleKeeper.SetOracleValidationResult(b2.BaseApp.NewContext(false, hdr), true)
+	tr.Line("gen.note", "workload runs on a second re-imported chain with the oracle validation result re-established")
+	b = b2
+	ctxs[1] = begin(b, "B2")
+	ops := c20Continuation(w.u)
 	for _, op := range ops {
 		ra, rb := op.run(a, ctxs[0]), op.run(b, ctxs[1])
 		tr.Line("gen.op", op.name, ra, rb)
@@ -714,6 +877,8 @@ func TestC20(t *testing.T) {
 		}
 		if strings.HasPrefix(ra, "ok") {
 			tr.Count("cont:A-ok")
+		} else {
+			tr.Count("cont:A-err")
 		}
 	}
 	hdr2 := tmproto.Header{Height: exp.Height + 1, Time: hdr.Time.Add(25 * time.Hour)}
